@@ -161,7 +161,8 @@ func c15Exec(run *ev.Run, c ev.Case) {
 	case "ctor":
 		for l := 0; l < 128; l++ {
 			for f := 0; f < 4; f++ {
-				c15One(run, env, c15P{Raw: 10, Format: f, Lin: l, Flags: 0x40, M: 1, Number: 3})
+				c15One(run, env, c15P{Raw: 10, Format: f, Lin: l, Flags: 0x40, M: 1, Number: 3}) // record given as a value
+				c15One(run, env, c15P{Raw: 11, Format: f, Lin: l, Flags: 0x40, M: 1, Number: 3}) // record decoded from its wire form
 			}
 		}
 	case "random":
@@ -242,6 +243,20 @@ func c15One(run *ev.Run, env *c15Env, p c15P) {
 	rd := c15Read(run, env, p, nil)
 	if rd == nil {
 		return
+	}
+	if (p.Raw+p.K2+p.B)%3 == 0 {
+		// in between, a read that fails without a usable body (the BMC refuses, or answers with
+		// too few bytes): that failure is what the caller must see, whatever the last reading's flags were
+		code := []byte{0xcb, 0xff, 0xc9, 0x00}[(p.Raw+p.M)&3]
+		env.sd.FailNext(code)
+		ctx, cancel := bg(10 * time.Second)
+		_, ferr := rd.Read(ctx, env.sess)
+		cancel()
+		run.Event("failed-reads-in-between", 1)
+		if ferr == nil || errors.Is(ferr, bmc.ErrSensorReadingUnavailable) || errors.Is(ferr, bmc.ErrSensorScanningDisabled) {
+			run.Violation("C15:flags", fmt.Sprintf("a Get Sensor Reading answered with completion code %#x and no reading (after a reading with flags %#x on the same reader) returned err=%v: the BMC set neither flag in this response", code, p.Flags, ferr), ev.MkCase("one", p), nil)
+			return
+		}
 	}
 	q := p
 	q.Raw = (p.Raw*7 + 13) & 0xff
